@@ -492,6 +492,33 @@ def rule_valueobj(prog: Program, classes: Optional[List[str]] = None) -> List[In
                 out.append(Instance("R-VALUEOBJ", f"{ci.qual}#EQCOMPLETE", OK if slots else INFO,
                                     f"__eq__ covers every state field (compared {sorted(eq.conj)}; caches {sorted(caches & fields)})", where))
 
+        # EQLAZY: equality / hash / token read construction-time state only. A field that some ordinary method
+        # (re)assigns later - a lazily filled cache - makes `a == b` depend on which properties were read before
+        lazy: Dict[str, str] = {}
+        for c_ in ci.mro():
+            for mname_, m_ in c_.methods.items():
+                if mname_ in ("__init__", "__new__", "__setstate__", "__reduce__", "__copy__", "__deepcopy__") or any(d_ in ("classmethod", "staticmethod") for d_ in m_.decorator_names()):
+                    continue
+                me_ = m_.self_name
+                for n_ in walk_own(m_.node):
+                    tgts_ = n_.targets if isinstance(n_, ast.Assign) else [n_.target] if isinstance(n_, (ast.AugAssign, ast.AnnAssign)) else []
+                    for t_ in tgts_:
+                        for x_ in ast.walk(t_):
+                            if isinstance(x_, ast.Attribute) and isinstance(x_.value, ast.Name) and x_.value.id == me_ and isinstance(x_.ctx, ast.Store):
+                                lazy.setdefault(x_.attr, f"{c_.name}.{mname_}")
+        for dn_ in ("__eq__", "__hash__", "__dask_tokenize__"):
+            mm_ = _own_or_inherited(ci, dn_)
+            if mm_ is None:
+                continue
+            # direct reads only: a property that fills its own cache and returns the value is deterministic
+            me_ = mm_[1].self_name
+            others_ = {_other_name(mm_[1])} if dn_ == "__eq__" else set()
+            direct = {n_.attr for n_ in walk_own(mm_[1].node) if isinstance(n_, ast.Attribute) and isinstance(n_.value, ast.Name) and n_.value.id in ({me_} | others_) and isinstance(n_.ctx, ast.Load)}
+            hit = sorted(direct & set(lazy))
+            out.append(Instance("R-VALUEOBJ", f"{ci.qual}#EQLAZY:{dn_}", BAD if hit else OK,
+                                f"{dn_} reads {hit}, which {lazy[hit[0]]}() fills in later: the result depends on which properties were read before (not an equivalence relation over time)" if hit
+                                else f"{dn_} reads only fields fixed at construction", mm_[1].where()))
+
         # PICKLEKEYS
         gs = _own_or_inherited(ci, "__getstate__")
         ss = _own_or_inherited(ci, "__setstate__")
@@ -981,7 +1008,7 @@ def rule_pickle_state(prog: Program, modules: Optional[Set[str]] = None) -> List
                     out.append(Instance("R-PICKLE", f"{cid}:{attr}", BAD,
                                         f"{ci.name}.{attr} holds a function local to {fn.name}(); the class has no __getstate__/__reduce__, so pickling any object that holds a {ci.name} fails with \"Can't pickle local object\"", fn.where(n)))
             else:
-                out.append(Instance("R-PICKLE", cid, OK, f"{ci.name}: {nstores} instance-attribute stores, none holds a local function" + (" (custom pickle protocol)" if custom else ""), f"{ci.mod.path}:{ci.node.lineno}"))
+                out.append(Instance("R-PICKLE", cid, OK, f"{ci.name}: {nstores} instance-attribute stores, none holds a local function" + (" (custom pickle protocol)" if custom else ""), f"{ci.mod.relpath}:{ci.node.lineno}"))
     # GEOJSON-VARIANTS
     try:
         init = prog.func("geom:Geometry.__init__")
